@@ -1,6 +1,6 @@
 (* ABI entries for the register -> CONTEXT_AMD64 conversion (C04, C05) *)
 From Coq Require Import List NArith Arith Bool.
-From MDW Require Import Bytes GenTypes Generated CtxModel AbiBase.
+From MDW Require Import Bytes GenTypes Generated CtxModel AbiBase CtxSpec.
 Import ListNotations.
 Local Open Scope N_scope.
 
@@ -43,3 +43,18 @@ Definition entry_ctx_ucontext (args : list N) : list N :=
   let '(st, r3) := take 128 r2 in
   let '(xmm, _) := take 256 r3 in
   ctx_bytes ucontext_table ucontext_xtable ucontext_copies (mk_regfile [] [] gregs fps st xmm).
+
+(* the same from the specification-only tables (CtxSpec.v) *)
+Definition entry_ctx_ptrace_spec (args : list N) : list N :=
+  let '(regs, r1) := take 27 args in
+  let '(dregs, r2) := take 8 r1 in
+  let '(fps, r3) := take 8 r2 in
+  let '(st, r4) := take 128 r3 in
+  let '(xmm, _) := take 256 r4 in
+  ctx_bytes expected_ptrace_table expected_xtable expected_copies (mk_regfile regs dregs [] fps st xmm).
+Definition entry_ctx_ucontext_spec (args : list N) : list N :=
+  let '(gregs, r1) := take 23 args in
+  let '(fps, r2) := take 8 r1 in
+  let '(st, r3) := take 128 r2 in
+  let '(xmm, _) := take 256 r3 in
+  ctx_bytes expected_ucontext_table expected_xtable expected_copies (mk_regfile [] [] gregs fps st xmm).
